@@ -27,7 +27,9 @@
 (*                          face, for every field                          *)
 (*   TranslationGivesZero   G = 0  =>  t[f] = 0 on every face              *)
 (*   BoundDisplacementExact u[f] = u(x_f) on every Dirichlet face          *)
-(*   family: ValidE(g), Admissible(neu), fields fit the dimension          *)
+(*   family: ValidE(g), Admissible(neu), fields fit the dimension; the     *)
+(*   grid may mix face types (prisms: faces with 3 and with 4 nodes) - the *)
+(*   oracle only uses the exact normal / centroid of each planar polygon   *)
 (* C15 sub-case [mu, lam, alpha, p, error, gq, gm, fields: <<[G, u0, ucq,  *)
 (*               bcq, dq, dm]>>]     all boundary faces Dirichlet          *)
 (*   DivUExact   (displacement_divergence u_cells +                        *)
